@@ -222,6 +222,8 @@ type FnCtx struct {
 	baseAlloc map[int]string
 	boundNames []string
 	assertHit map[*Clause]int
+	strAssumed map[string]bool
+	pairCache map[string]string
 }
 
 type deferRec struct {
